@@ -188,17 +188,18 @@ func SlArr(s *Term) *Term { return T(SRef, app("s-arr", s)) }
 func SlOff(s *Term) *Term { return T(SInt, app("s-off", s)) }
 func SlLen(s *Term) *Term { return T(SInt, app("s-len", s)) }
 func SlCap(s *Term) *Term { return T(SInt, app("s-cap", s)) }
+func SIdx(s, k *Term) *Term  { return T(SInt, app("sidx", s, k)) }
 func MkSlice(arr, off, ln, cp *Term, gt types.Type) *Term {
 	return TG(SSlice, gt, app("mk-slice", arr, off, ln, cp))
 }
-func StrLen(s *Term) *Term  { return T(SInt, app("str-len", s)) }
+func StrLen(s *Term) *Term  { return T(SInt, app("slen", s)) }
 func StrData(s *Term) *Term { return T(ArrSort(SInt, SInt), app("str-data", s)) }
 func MkStr(ln, data *Term) *Term {
 	return T(SStr, app("mk-str", ln, data))
 }
 
 // Prelude is emitted at the top of every obligation.
-const Prelude = `(set-option :produce-models true)
+const preludeTmpl = `(set-option :produce-models true)
 (set-logic ALL)
 (declare-sort Ref 0)
 (declare-sort Any 0)
@@ -207,9 +208,29 @@ const Prelude = `(set-option :produce-models true)
 (declare-datatypes ((Slice 0)) (((mk-slice (s-arr Ref) (s-off Int) (s-len Int) (s-cap Int)))))
 (declare-datatypes ((Str 0)) (((mk-str (str-len Int) (str-data (Array Int Int))))))
 (define-fun nil_slice () Slice (mk-slice null 0 0 0))
+(define-fun slen ((s Str)) Int (ite (< (str-len s) 0) 0 (str-len s)))
+@@FUNS@@
 (define-fun gorem ((x Int) (y Int)) Int (ite (>= x 0) (mod x (abs y)) (- (mod (- x) (abs y)))))
 (define-fun godiv ((x Int) (y Int)) Int (ite (>= x 0) (ite (> y 0) (div x y) (- (div x (- y)))) (ite (> y 0) (- (div (- x) y)) (div (- x) (- y)))))
 (define-fun wrap_s ((x Int) (half Int)) Int (ite (and (>= x (- half)) (< x half)) x (- (mod (+ x half) (* 2 half)) half)))
 (define-fun wrap_u ((x Int) (m Int)) Int (ite (and (>= x 0) (< x m)) x (mod x m)))
 (define-fun pow2 ((k Int)) Int (ite (<= k 0) 1 (ite (= k 1) 2 (ite (= k 2) 4 (ite (= k 3) 8 (ite (= k 4) 16 (ite (= k 5) 32 (ite (= k 6) 64 (ite (= k 7) 128 (ite (= k 8) 256 (ite (= k 16) 65536 (ite (= k 24) 16777216 (ite (= k 32) 4294967296 (ite (= k 40) 1099511627776 (ite (= k 48) 281474976710656 (ite (= k 56) 72057594037927936 (ite (= k 64) 18446744073709551616 0)))))))))))))))))
 `
+
+const funsTriggered = `(declare-fun sidx (Slice Int) Int)
+(assert (forall ((s Slice) (k Int)) (! (= (sidx s k) (+ (s-off s) k)) :pattern ((sidx s k)))))
+(declare-fun hasprefix (Str Str) Bool)
+(assert (forall ((s Str) (p Str)) (! (= (hasprefix s p) (and (<= (slen p) (slen s)) (forall ((i Int)) (! (=> (and (<= 0 i) (< i (slen p))) (= (select (str-data s) i) (select (str-data p) i))) :pattern ((select (str-data p) i)) :pattern ((select (str-data s) i)))))) :pattern ((hasprefix s p)))))
+(declare-fun streq (Str Str) Bool)
+(assert (forall ((a Str) (b Str)) (! (= (streq a b) (and (= (slen a) (slen b)) (forall ((i Int)) (! (=> (and (<= 0 i) (< i (slen a))) (= (select (str-data a) i) (select (str-data b) i))) :pattern ((select (str-data a) i)) :pattern ((select (str-data b) i)))))) :pattern ((streq a b)))))
+`
+
+const funsMacro = `(define-fun sidx ((s Slice) (k Int)) Int (+ (s-off s) k))
+(define-fun hasprefix ((s Str) (p Str)) Bool (and (<= (slen p) (slen s)) (forall ((i Int)) (=> (and (<= 0 i) (< i (slen p))) (= (select (str-data s) i) (select (str-data p) i))))))
+(define-fun streq ((a Str) (b Str)) Bool (and (= (slen a) (slen b)) (forall ((i Int)) (=> (and (<= 0 i) (< i (slen a))) (= (select (str-data a) i) (select (str-data b) i))))))
+`
+
+// Prelude is the proof-oriented prelude (uninterpreted functions with triggered definitional axioms);
+// PreludeMacro defines the same functions as macros, which model finders handle better.
+var Prelude = strings.Replace(preludeTmpl, "@@FUNS@@\n", funsTriggered, 1)
+var PreludeMacro = strings.Replace(preludeTmpl, "@@FUNS@@\n", funsMacro, 1)
